@@ -22,6 +22,10 @@
 
 #include "processexecutor.h"
 
+#ifdef DANMAR_CPPCHECK_VERIF
+#include "verifhook.hpp"
+#endif
+
 #ifdef HAS_THREADING_MODEL_FORK
 
 #include "cppcheck.h"
@@ -169,6 +173,10 @@ namespace {
 
             if (len > 0) // TODO: unexpected - write a warning?
                 writeToPipeInternal(type, data.c_str(), len);
+#ifdef DANMAR_CPPCHECK_VERIF
+            verifhook::workerMessageSent();
+            verifhook::schedPoint("process-worker-sent");
+#endif
         }
 
         const int mWpipe;
@@ -375,6 +383,9 @@ unsigned int ProcessExecutor::check()
                 std::exit(EXIT_FAILURE);
             }
 
+#ifdef DANMAR_CPPCHECK_VERIF
+            verifhook::schedPoint("process-before-fork");
+#endif
             const pid_t pid = fork();
             if (pid < 0) {
                 // Error
@@ -391,6 +402,9 @@ unsigned int ProcessExecutor::check()
                 if (mTimerResults)
                     timerResults.reset(new TimerResults);
 
+#ifdef DANMAR_CPPCHECK_VERIF
+                verifhook::workerStart(iFileSettings != mFileSettings.end() ? iFileSettings->filename() : iFile->path());
+#endif
                 PipeWriter pipewriter(pipes[1], mSettings.debugipc);
                 CppCheck fileChecker(mSettings, supprs, pipewriter, timerResults.get(), false, mExecuteCommand);
                 unsigned int resultOfCheck = 0;
@@ -442,6 +456,9 @@ unsigned int ProcessExecutor::check()
                             name = p->second;
                         }
                         const bool readRes = handleRead(*rp, result, name);
+#ifdef DANMAR_CPPCHECK_VERIF
+                        verifhook::schedPoint("process-parent-read");
+#endif
                         if (!readRes) {
                             std::size_t size = 0;
                             if (p != pipeFile.cend()) {
